@@ -3,10 +3,15 @@ package main
 import (
 	"context"
 	"fmt"
+	"os"
+	"os/exec"
 	"runtime"
+	"strings"
 	"sync"
 	"sync/atomic"
 	"time"
+
+	sdklog "go.opentelemetry.io/otel/sdk/log"
 
 	"verif/harness/vgen"
 )
@@ -22,6 +27,8 @@ type freeResult struct {
 	c        cfg
 	evs      []event
 	reported int
+	sinkBefore int64
+	records    int
 	stuck    string
 	nilRet   bool
 	desc     map[string]any
@@ -36,32 +43,73 @@ func freeOne(r *vgen.Rand) freeResult {
 		total += per[i]
 	}
 	c := cfg{bufsz: r.Range(1, 3)}
-	if r.Bool() {
+	switch r.Intn(8) {
+	case 0, 1, 2:
 		c.qcap = r.Range(1, 8)
-	} else {
+	case 3:
+		c.qcap = dfltQ // defaults by omission / zero / negative values
+	case 4:
+		c.qcap = 1 << 15 // huge
+		if r.Bool() {
+			c.bufsz = 1 << 12
+		}
+	default:
 		c.qcap = total + r.Range(0, 64) // overflow impossible: every missing record is a loss
 	}
 	c.maxb = min(r.Range(1, 8), c.qcap)
-	interval := []time.Duration{time.Millisecond, 5 * time.Millisecond, time.Hour}[r.Intn(3)]
-	timeout := []time.Duration{time.Hour, time.Hour, 2 * time.Millisecond}[r.Intn(3)]
-	rg := newRig(c, interval, timeout)
-	rg.mut.how.Store(int32(r.Range(0, 4)))
+	switch r.Intn(6) {
+	case 0:
+		c.maxb = 1
+	case 1:
+		c.maxb = c.qcap
+	case 2:
+		if c.qcap >= dfltB {
+			c.maxb = dfltB
+		}
+	}
+	if c.qcap == dfltQ && r.Bool() {
+		c.bufsz = dfltS
+	}
+	interval := []time.Duration{time.Millisecond, 5 * time.Millisecond, time.Hour, time.Second}[r.Intn(4)]
+	timeout := []time.Duration{time.Hour, 30 * time.Second, 2 * time.Millisecond, 2 * time.Millisecond}[r.Intn(4)]
+	spec := spell(r, c, interval, timeout)
+	if ec := spec.effective(); ec != c {
+		panic(fmt.Sprintf("harness: spelling %v of %v is %v", spec, c, ec))
+	}
+	rg := newRigSpec(spec)
+	rg.mut.how.Store(int32(r.Range(0, nMut)))
+	rg.viaProvider = r.Bool()
+	rg.direct = r.Intn(3)
+	shapeOf := make([]int, G)
+	for i := range shapeOf {
+		shapeOf[i] = shapes[r.Intn(len(shapes))]
+	}
 
-	// exporter behaviour
+	// exporter behaviour: latency (none / yield / short sleep / sleep beyond the export
+	// timeout on some calls), honouring its context or not, failing at random or every n-th call
 	failDen := []int{0, 0, 10, 4}[r.Intn(4)]
-	lat := r.Intn(3) // 0 none, 1 yield, 2 sleep
+	failNth := []int{0, 0, 0, 2, 3, 5}[r.Intn(6)]
+	lat := r.Intn(4) // 0 none, 1 yield, 2 sleep, 3 sleep beyond the timeout on every 4th call
+	if lat == 3 && timeout != 2*time.Millisecond {
+		lat = 2
+	}
 	honour := r.Bool()
 	gr := r.Fork()
 	var gmu sync.Mutex
+	calls := 0
 	rg.g.behave = func(ctx context.Context, n int) error {
 		gmu.Lock()
-		fail := failDen > 0 && gr.Chance(1, failDen)
+		calls++
+		fail := (failDen > 0 && gr.Chance(1, failDen)) || (failNth > 0 && calls%failNth == 0)
 		d := time.Duration(gr.Range(20, 400)) * time.Microsecond
+		if lat == 3 && calls%4 == 0 {
+			d = time.Duration(gr.Range(3000, 6000)) * time.Microsecond
+		}
 		gmu.Unlock()
 		switch lat {
 		case 1:
 			runtime.Gosched()
-		case 2:
+		case 2, 3:
 			if honour {
 				select {
 				case <-time.After(d):
@@ -81,7 +129,13 @@ func freeOne(r *vgen.Rand) freeResult {
 	before := sink.total.Load()
 	var emitted atomic.Int64
 	var wg sync.WaitGroup
-	res := freeResult{c: c}
+	var panicked atomic.Value
+	guard := func() {
+		if p := recover(); p != nil {
+			panicked.Store(fmt.Sprint("panic: ", p))
+		}
+	}
+	res := freeResult{c: c, records: total}
 	var nilRet atomic.Bool
 
 	for g := 0; g < G; g++ {
@@ -89,8 +143,9 @@ func freeOne(r *vgen.Rand) freeResult {
 		pr := r.Fork()
 		go func(g, n int) {
 			defer wg.Done()
+			defer guard()
 			for k := 0; k < n; k++ {
-				rg.emit(g+1, g+1, k)
+				rg.emitShape(g+1, g+1, k, shapeOf[g])
 				emitted.Add(1)
 				if pr.Chance(1, 4) {
 					runtime.Gosched()
@@ -104,14 +159,12 @@ func freeOne(r *vgen.Rand) freeResult {
 		pr := r.Fork()
 		go func(f int) {
 			defer wg.Done()
+			defer guard()
 			for j, n := 0, pr.Range(1, 4); j < n; j++ {
 				for w := pr.Range(0, 20); w > 0; w-- {
 					runtime.Gosched()
 				}
-				ctx, cancel := context.Background(), context.CancelFunc(func() {})
-				if pr.Chance(1, 4) {
-					ctx, cancel = context.WithTimeout(ctx, time.Duration(pr.Range(100, 2000))*time.Microsecond)
-				}
+				ctx, cancel := someCtx(pr)
 				if rg.flush(100+f, ctx) == rNil {
 					nilRet.Store(true)
 				}
@@ -126,13 +179,11 @@ func freeOne(r *vgen.Rand) freeResult {
 		after := int64(pr.Range(0, total))
 		go func(j int) {
 			defer wg.Done()
+			defer guard()
 			for emitted.Load() < after {
 				runtime.Gosched()
 			}
-			ctx, cancel := context.Background(), context.CancelFunc(func() {})
-			if pr.Chance(1, 4) {
-				ctx, cancel = context.WithTimeout(ctx, time.Duration(pr.Range(100, 2000))*time.Microsecond)
-			}
+			ctx, cancel := someCtx(pr)
 			rg.shutdown(200+j, ctx)
 			cancel()
 		}(j)
@@ -152,19 +203,50 @@ func freeOne(r *vgen.Rand) freeResult {
 	if rg.rec.isRunaway() {
 		res.stuck = "runaway: the exporter was called without end"
 	}
+	if p := panicked.Load(); p != nil {
+		res.stuck = p.(string)
+	}
 	// grace: let a drain that outlived an expired Shutdown finish (not needed for soundness)
 	rg.g.waitFor(func() bool { return rg.g.inside == 0 }, 200*time.Millisecond)
 	res.evs = rg.rec.take()
 	res.nilRet = nilRet.Load()
-	res.reported = int(sink.total.Load() - before)
-	res.desc = map[string]any{"cfg": coqCfg(c), "emitters": G, "records": total, "flushers": nFl, "shutdowns": nSd,
+	res.sinkBefore = before
+	res.desc = map[string]any{"cfg": coqCfg(c), "options": spec.String(), "provider": rg.viaProvider, "direct": rg.direct, "fail_every": failNth, "emitters": G, "records": total, "flushers": nFl, "shutdowns": nSd,
 		"interval": interval.String(), "timeout": timeout.String(), "fail_1_in": failDen, "latency": lat, "mutation": rg.mut.how.Load()}
 	return res
 }
 
+// someCtx: background (mostly), expiring soon, or already cancelled.
+func someCtx(pr *vgen.Rand) (context.Context, context.CancelFunc) {
+	switch pr.Intn(8) {
+	case 0, 1:
+		return context.WithTimeout(context.Background(), time.Duration(pr.Range(100, 2000))*time.Microsecond)
+	case 2:
+		ctx, cancel := context.WithCancel(context.Background())
+		cancel()
+		return ctx, cancel
+	}
+	return context.Background(), func() {}
+}
+
 func runFree(w *vgen.Writer, r *vgen.Rand, n int) {
+	quiesce(2 * time.Second)
+	baseline := runtime.NumGoroutine()
 	for i := 0; i < n && stuckScenarios.Load() < 2; i++ {
+		// The drop counter comes through otel's process-global logger.  A poll goroutine of
+		// the previous scenario may still be running (a Shutdown that gave up on its context
+		// does not wait for it): its lines are attributed to a scenario only when all
+		// goroutines of the neighbouring scenarios are known to be gone; otherwise the
+		// count is not used (0).  Timing decides whether the auxiliary check applies, never
+		// its verdict.
+		cleanBefore := quiesceTo(baseline, 300*time.Millisecond)
 		res := freeOne(r.Fork())
+		if !cleanBefore || !quiesceTo(baseline, 300*time.Millisecond) {
+			res.reported = 0
+			w.Tally("free.drop_count_not_attributable")
+		} else {
+			res.reported = int(sink.total.Load() - res.sinkBefore)
+		}
 		if res.stuck != "" {
 			stuckScenarios.Add(1)
 			if len(res.evs) > 400 {
@@ -179,12 +261,27 @@ func runFree(w *vgen.Writer, r *vgen.Rand, n int) {
 				nb++
 			}
 		}
-		term := "CFree " + coqCfg(res.c) + " " + coqHistory(res.evs) + " " + fmt.Sprint(res.reported)
+		// the queue size only enters the judgement through "more than qcap records were
+		// pending"; any value above the number of records emitted gives the same verdict
+		// (large unary numbers are slow in Coq), the buffer size is not judged at all
+		cc := res.c
+		cc.qcap = min(cc.qcap, res.records+64)
+		cc.bufsz = min(cc.bufsz, 8)
+		term := "CFree " + coqCfg(cc) + " " + coqHistory(res.evs) + " " + fmt.Sprint(res.reported)
 		w.Add(term, res.desc, "free", nb > 0 && res.nilRet)
 		if res.c.qcap <= 8 {
 			w.Tally("free.small_queue")
 		} else {
 			w.Tally("free.no_overflow_possible")
+		}
+		if res.c.qcap == dfltQ {
+			w.Tally("free.default_queue")
+		}
+		if res.c.maxb == 1 {
+			w.Tally("free.batch=1")
+		}
+		if res.c.maxb == res.c.qcap {
+			w.Tally("free.batch=queue")
 		}
 		if res.reported > 0 {
 			w.Tally("free.drops_logged")
@@ -255,4 +352,124 @@ func hazard(r *vgen.Rand, n int, w *vgen.Writer) {
 	}
 	fmt.Printf("hazard: %d order violations in %d trials\n", bad, n)
 	w.Flush()
+}
+
+// runMisc drives the entry points that have no exporter-side observation: a processor
+// built around a nil exporter and the zero-value processor.  Only a panic or a hang is
+// reported (the property says nothing else about them).
+// child: scenarios that can kill the process.  "clamp": a batch size of 2^30 with a
+// queue of 4 must behave as batch size 4 (a processor that allocated by the unclamped
+// value would die).  Prints the exported batch sizes.
+func child(kind string) {
+	rec := &recorder{}
+	g := newGate(rec)
+	bp := sdklog.NewBatchProcessor(g, sdklog.WithMaxQueueSize(4), sdklog.WithExportMaxBatchSize(1<<30), sdklog.WithExportInterval(time.Hour))
+	lg := sdklog.NewLoggerProvider(sdklog.WithProcessor(bp)).Logger("c06")
+	for k := 0; k < 4; k++ {
+		lg.Emit(context.Background(), mkRecord(0, k, 7))
+	}
+	ok := g.waitFor(func() bool { return g.ends >= 1 }, watchdog) // the full queue is one batch: poll exports it
+	lg.Emit(context.Background(), mkRecord(0, 4, 7))
+	_ = bp.ForceFlush(context.Background())
+	_ = bp.Shutdown(context.Background())
+	sizes := []int{}
+	for _, e := range rec.take() {
+		if e.kind == evBegin {
+			sizes = append(sizes, len(e.batch))
+		}
+	}
+	fmt.Println("CHILD", kind, ok, sizes)
+}
+
+func runMisc(w *vgen.Writer, out string) {
+	{
+		cmd := exec.Command(os.Args[0], "-c06-child", "clamp", "-out", out)
+		cmd.WaitDelay = time.Second
+		res := make(chan string, 1)
+		go func() {
+			b, err := cmd.CombinedOutput()
+			txt := string(b)
+			if len(txt) > 600 {
+				txt = txt[:600]
+			}
+			if err != nil {
+				res <- "Crashed: " + err.Error() + ": " + txt
+			} else if !strings.Contains(txt, "CHILD clamp true [4 1]") {
+				res <- "unexpected: " + txt
+			} else {
+				res <- ""
+			}
+		}()
+		select {
+		case r := <-res:
+			if r != "" {
+				w.Violation("batch size 2^30 with queue size 4 (child process): "+r, map[string]any{})
+			}
+		case <-time.After(4 * watchdog):
+			if cmd.Process != nil {
+				cmd.Process.Kill()
+			}
+			w.Violation("Stuck: batch size 2^30 with queue size 4 (child process)", map[string]any{})
+		}
+		w.Tally("misc.child clamp 2^30")
+	}
+	try := func(what string, f func()) {
+		done := make(chan any, 1)
+		go func() {
+			defer func() { done <- recover() }()
+			f()
+		}()
+		select {
+		case p := <-done:
+			if p != nil {
+				w.Violation("panic: "+what, map[string]any{"panic": fmt.Sprint(p)})
+			}
+		case <-time.After(watchdog):
+			w.Violation("Stuck: "+what, map[string]any{})
+		}
+		w.Tally("misc." + what)
+	}
+	try("nil exporter", func() {
+		bp := sdklog.NewBatchProcessor(nil, sdklog.WithMaxQueueSize(2), sdklog.WithExportMaxBatchSize(2))
+		lg := sdklog.NewLoggerProvider(sdklog.WithProcessor(bp)).Logger("c06")
+		for k := 0; k < 5; k++ {
+			lg.Emit(context.Background(), mkRecord(0, k, 7))
+		}
+		_ = bp.ForceFlush(context.Background())
+		_ = bp.Shutdown(context.Background())
+		_ = bp.Shutdown(context.Background())
+	})
+	try("zero-value processor", func() {
+		bp := new(sdklog.BatchProcessor)
+		var r sdklog.Record
+		_ = bp.OnEmit(context.Background(), &r)
+		_ = bp.ForceFlush(context.Background())
+		_ = bp.Shutdown(context.Background())
+	})
+}
+
+// quiesceTo waits (bounded) until the number of goroutines is back to base.
+func quiesceTo(base int, d time.Duration) bool {
+	deadline := time.Now().Add(d)
+	for runtime.NumGoroutine() > base {
+		if time.Now().After(deadline) {
+			return false
+		}
+		time.Sleep(200 * time.Microsecond)
+	}
+	return true
+}
+
+// quiesce waits until the number of goroutines stops falling (start of the fragment).
+func quiesce(d time.Duration) {
+	deadline := time.Now().Add(d)
+	last, same := runtime.NumGoroutine(), 0
+	for same < 20 && time.Now().Before(deadline) {
+		time.Sleep(500 * time.Microsecond)
+		if n := runtime.NumGoroutine(); n == last {
+			same++
+		} else {
+			last, same = n, 0
+		}
+	}
 }
